@@ -143,6 +143,7 @@ Proof.
   assert (Hout : rooted (pi_path (out_pi pi1 saved))).
   { unfold out_pi. destruct saved as [p|]; auto. }
   destruct ok; cbn [negb]; [|exact Hout].
+  match goal with |- context [if ?b then _ else _] => destruct b end; [exact Hout|].
   destruct (alk (pi_part pi1) (children h parent)) as [c|]; [|exact Hout].
   destruct (get h c) as [[ch m|dt k id m|lk m]|]; cbn [sr_pi]; try exact Hout.
   - destruct (pi_is_last pi1); [exact Hout|].
@@ -322,6 +323,8 @@ Proof.
       assert (Hlast : pi_is_last pi1 = true) by (destruct Hlast0; auto).
       exists ns. split; auto. unfold pi_is_last in Hlast. apply Nat.eqb_eq in Hlast.
       rewrite spell_snoc, <- Hfn, <- P6, Hlast, P1, firstn_all. reflexivity. }
+    match goal with |- context [if ?b then _ else _] => destruct b end.
+    { apply Hres; discriminate. }
     destruct (alk (pi_part pi1) (children h parent)) as [c|] eqn:Elk.
     2:{ apply Hres; [discriminate|]. destruct (pi_is_last pi1); discriminate. }
     assert (He : edge h parent (pi_part pi1) c) by now apply alookup_In.
